@@ -93,8 +93,30 @@ pub(crate) fn walk_frame(f: &[u8], max_len: usize) -> Result<u8, String> {
                 return Err("OPEN shorter than 29".into());
             }
             let opt = f[28] as usize;
-            if 29 + opt != len {
-                return Err(format!("OPEN optional parameter length {} does not match frame {}", opt, len));
+            if opt == 255 && len >= 32 && f[29] == 255 {
+                // RFC 9072 extended optional parameters: two-octet lengths
+                let ext = u16::from_be_bytes([f[30], f[31]]) as usize;
+                if 32 + ext != len {
+                    return Err(format!("OPEN extended optional parameter length {} does not match frame {}", ext, len));
+                }
+                let mut i = 32;
+                while i < len {
+                    if i + 3 > len || i + 3 + u16::from_be_bytes([f[i + 1], f[i + 2]]) as usize > len {
+                        return Err("OPEN extended optional parameter overruns the frame".into());
+                    }
+                    i += 3 + u16::from_be_bytes([f[i + 1], f[i + 2]]) as usize;
+                }
+            } else {
+                if 29 + opt != len {
+                    return Err(format!("OPEN optional parameter length {} does not match frame {}", opt, len));
+                }
+                let mut i = 29;
+                while i < len {
+                    if i + 2 > len || i + 2 + f[i + 1] as usize > len {
+                        return Err("OPEN optional parameter overruns the frame".into());
+                    }
+                    i += 2 + f[i + 1] as usize;
+                }
             }
         }
         2 => {
